@@ -237,6 +237,12 @@ def run_history(world, conf, cats, hist, path, rec, seed=1):
                         if op == 'mcounts' and [float(a) for a in arr] != [float(a) for a in full.sum(axis=0)]:
                             ok = False
                         ret = {'k': 'rates' if ok else 'rates-inexact', 'v': sums, 'n': n}
+                        # the arrays handed out belong to the caller: overwritten here, the next request must not see it
+                        for a_ in (arr, full):
+                            try:
+                                a_[...] = -1.0
+                            except (ValueError, TypeError):
+                                pass
                 else:  # eval
                     name = EVAL_NAMES[(pos + len(cats) + seed) % len(EVAL_NAMES)] if n_view_events > 0 else 'number_test'
                     fn = getattr(ce, name)
